@@ -200,7 +200,7 @@ func runC09(c *Ctx) {
 
 	// ---- C09.2 storage order
 	{
-		fns := append([]*ssa.Function{next}, next.AnonFuncs...)
+		fns := regionFuncs(next)
 		for _, fn := range fns {
 			n := len(MapRangeLoops(fn))
 			c.Check(n == 0, "C09.2-storage-order", FuncName(fn)+"|no map iteration", p.Pos(fn.Pos()), "NextBatch produces its output while storage enumerates in order; it never ranges over the cache map")
@@ -269,6 +269,9 @@ func runC09(c *Ctx) {
 	{
 		hs := p.Func(stPkg + ":(*syncHandler).HandleStreamRequest")
 		uqs := calleeMethod("sync/syncdeps", "UpdateQueueSize")
+		// the streaming loop may have been moved into a function of its own
+		hs, _ = descendTo(hs, uqs)
+		c.Fn(FuncName(hs))
 		var incs []ssa.Instruction
 		isDec := func(cc *ssa.CallCommon) bool {
 			if !uqs(cc) {
